@@ -2,7 +2,8 @@
 
 Input : [flavour, workers, mkRaise, intr, mfaults, tb, schedule]
         flavour = 'suite' (ConcurrentTestSuite) | 'stream' (ConcurrentStreamTestSuite)
-        worker  = [tests, boom, faults]   tests = [[kind, [tag..]] | [kind, [tag..], [event..]] ..]; boom: run() raises after the tests;
+        worker  = [tests, boom, faults] | [tests, boom, faults, polls]   polls (suite flavour): the sub-suite is a stock unittest.TestSuite, whose
+                  run() reads result.shouldStop before every element it holds;   tests = [[kind, [tag..]] | [kind, [tag..], [event..]] ..]; boom: run() raises after the tests;
                   a test with a third component is (stream flavour) a native emitter: run(result) calls result.status(...) once per
                   event = [id, ['st', status] | ['file', eof], None | ['some', [tag..]], 'omitted' | 'explicitNone' | ['given', n]]
                   faults (suite): indices of this worker's calls on the caller's result that raise
@@ -13,7 +14,10 @@ Input : [flavour, workers, mkRaise, intr, mfaults, tb, schedule]
         schedule = list of thread ids: 0 = the thread calling run(), w+1 = worker w
         an optional 8th component = realisation hints, which do not change what the model predicts (atoms): routes (worker 0 gets
         the route code None, worker 1 the route code '', stream flavour), emptyId (test 0 has the id ''), wrap (suite flavour:
-        wrap_result wraps each forwarder in a pass-through TestResultDecorator)
+        wrap_result wraps each forwarder in a pass-through TestResultDecorator), and what kind of object a sub-suite is -
+        testSuites (a unittest.TestSuite holding the worker's 0..3 tests: unhashable, equal to any suite holding equal tests),
+        equalCases (instances of one unittest.TestCase class with the same method name: all equal, same hash),
+        sameObject (workers with the same script are ONE object, yielded once per worker)
 Trace : [log, sink, result, spawned, joined, live, runs, flags, died, finished]      (TTV/Drv/C13.lean)
 The real suites run with testtools.testsuite.Queue / .threading replaced by the scheduler's doubles.
 """
@@ -39,25 +43,64 @@ class WorkerBoom(Exception):
     pass
 
 
-class Worker:
-    """a hashable TestCase-like sub-suite: runs its placeholder tests, then raises if `boom`"""
+class Script:
+    """what a sub-suite does when it is run: its placeholder tests, then it raises if `boom`.  The object may be shared by several
+    workers (hint sameObject), so what happened is recorded per running thread (`rec[worker index]`), not on the object."""
 
-    def __init__(self, n, tests, boom, stream=False, empty_id=False):
-        self.n, self.tests, self.boom, self.runs, self.result, self.stream = n, tests, boom, 0, None, stream
-        self.empty_id = empty_id
+    def script(self, n, tests, boom, stream, empty_id, rec):
+        self.n, self.tests, self.boom, self.stream, self.empty_id, self.rec = n, tests, boom, stream, empty_id, rec
+
+    def cases(self):
+        from testtools import PlaceHolder
+        return [None if (len(t) == 3 and self.stream) else
+                PlaceHolder('' if (j == 0 and self.empty_id) else 't%d' % j, outcome=ADD[t[0]], tags=set(t[1]))
+                for j, t in enumerate(self.tests)]
 
     def run(self, result):
-        from testtools import PlaceHolder
-        self.runs += 1
-        self.result = result
-        for j, t in enumerate(self.tests):
-            if len(t) == 3 and self.stream:
+        r = self.rec.setdefault(S.current_tid() - 1, {'runs': 0, 'result': None})
+        r['runs'] += 1
+        r['result'] = result
+        for t, case in zip(self.tests, self.cases()):
+            if case is None:
                 for ev in t[2]:
                     result.status(**native_kwargs(ev, self.empty_id))      # a test that speaks the stream protocol itself
             else:
-                PlaceHolder('' if (j == 0 and self.empty_id) else 't%d' % j, outcome=ADD[t[0]], tags=set(t[1])).run(result)
+                case.run(result)
         if self.boom:
             raise WorkerBoom('runner broke')
+
+
+class Worker(Script):
+    """a plain hashable TestCase-like sub-suite"""
+
+    def __init__(self, *a):
+        self.script(*a)
+
+
+class SuiteWorker(Script, unittest.TestSuite):
+    """a unittest.TestSuite that holds the worker's tests (unhashable: BaseTestSuite defines __eq__; equal to every suite holding
+    equal tests, e.g. every other empty one).  run() runs the held tests in order WITHOUT the stock TestSuite.run's poll of
+    result.shouldStop before each test (see the assumptions)"""
+
+    def __init__(self, *a):
+        self.script(*a)
+        self._held = Script.cases(self)
+        unittest.TestSuite.__init__(self, [c for c in self._held if c is not None])      # the suite holds these very objects
+
+    def cases(self):
+        return self._held
+
+
+class CaseWorker(Script, unittest.TestCase):
+    """instances of one TestCase class with one method name: unittest.TestCase.__eq__ / __hash__ look at (type, method name) only,
+    so all of them are equal and hash alike"""
+
+    def __init__(self, *a):
+        unittest.TestCase.__init__(self, 'runTest')
+        self.script(*a)
+
+    def runTest(self):
+        pass
 
 
 def native_kwargs(ev, empty_id=False):
@@ -120,6 +163,37 @@ class Sink:
             raise S.Injected('injected fault')
 
 
+class BoomCase:
+    """an element of a stock TestSuite whose run raises"""
+
+    def __call__(self, result):
+        raise WorkerBoom('runner broke')
+
+    run = __call__
+
+
+class StockSuite(unittest.TestSuite):
+    """a STOCK unittest.TestSuite holding the worker's tests (and, if the run is to break, a last element that raises): run() is
+    unittest's own - it reads result.shouldStop before every element (the model's `polls`); overridden only to record the call"""
+
+    def __init__(self, n, tests, boom, stream, empty_id, rec):
+        from testtools import PlaceHolder
+        cases = [PlaceHolder('' if (j == 0 and empty_id) else 't%d' % j, outcome=ADD[t[0]], tags=set(t[1])) for j, t in enumerate(tests)]
+        unittest.TestSuite.__init__(self, cases + ([BoomCase()] if boom else []))
+        self.n, self.rec = n, rec
+
+    def run(self, result, debug=False):
+        r = self.rec.setdefault(S.current_tid() - 1, {'runs': 0, 'result': None})
+        r['runs'] += 1
+        r['result'] = result
+        return unittest.TestSuite.run(self, result, debug)
+
+
+class TbWorker:
+    def run(self, result):
+        raise WorkerBoom('runner broke')
+
+
 def measure_tb():
     """number of status events that carry the traceback of a broken runner (depends on traceback formatting)"""
     import testtools
@@ -131,7 +205,7 @@ def measure_tb():
     res = testtools.ExtendedToStreamDecorator(testtools.TimestampingStreamResult(testtools.StreamToQueue(Q(), '0')))
     suite = testtools.ConcurrentStreamTestSuite(lambda: [])
     res.startTestRun()      # run() does this in the calling thread before it starts the worker
-    suite._run_test(Worker(0, [], True), res, '0')
+    suite._run_test(TbWorker(), res, '0')
     return sum(1 for e in evs if e.get('file_name') is not None)
 
 
@@ -139,24 +213,31 @@ class C13(Prop):
     id = 'C13'
     budgets = {'quick': 2200, 'thorough': 26000}
     time_limit = {'quick': 45, 'thorough': 540}
-    rule = ('ConcurrentTestSuite / ConcurrentStreamTestSuite (half each) over 0-4 hashable workers running 0-3 tests: PlaceHolder tests of arbitrary outcome '
+    rule = ('ConcurrentTestSuite / ConcurrentStreamTestSuite (half each) over 0-4 workers running 0-3 tests: PlaceHolder tests of arbitrary outcome '
             'with tags, and - stream flavour, 40 % of the tests - native stream emitters whose run(result) calls result.status() for 0-3 scripted events '
             '(test id, any status / file chunk with or without eof, test_tags absent / empty / given, timestamp keyword omitted / None / a given instant); '
-            'workers with no test / that emit nothing; realisation hints that leave the prediction unchanged: route codes None and \'\', the empty test id, a pass-through '
-            'wrap_result; workers raising from run(), worker-side faults of the caller\'s TestResult (suite), make_tests raising after k sub-suites, '
+            'workers with no test / that emit nothing; a sub-suite is a plain object, a unittest.TestSuite holding its tests (unhashable; empty ones are equal), an instance of one '
+            'unittest.TestCase class (all equal, same hash), the SAME object yielded for several workers, or - suite flavour, `polls` - a stock unittest.TestSuite whose own run() reads '
+            'result.shouldStop before every element; realisation hints that leave the prediction unchanged: route codes None and \'\', the empty test id, a pass-through '
+            'wrap_result; workers raising from run(), worker-side faults of the caller\'s TestResult (suite; also at the shouldStop read), make_tests raising after k sub-suites, '
             'an interrupt at main\'s m-th queue.get(), the caller\'s result raising at main\'s j-th call (stream: status; suite: stop in the abort path); '
-            'schedules: quick = every schedule with <= 2 pre-emptions of 6 small base configurations + random / bursty / few-pre-emption schedules of random '
-            'configurations; thorough adds every schedule with <= 2 pre-emptions for 2 workers x 2 tests, <= 1 for 3 workers, and every single fault position / interrupt position / make_tests failure position (<= 1 pre-emption). non-trivial = at least 2 workers started; '
+            'schedules: quick = every schedule with <= 2 pre-emptions of 11 small base configurations + random / bursty / few-pre-emption schedules of random '
+            'configurations; thorough adds every schedule with <= 2 pre-emptions for 2 workers x 2 tests, <= 1 for 3 workers, and every single fault position / interrupt position / make_tests failure position (<= 1 pre-emption), also for stock TestSuite partitions and for equal / identical / unhashable sub-suite objects. non-trivial = at least 2 workers started; '
             'distinct = distinct input S-expression')
     assumptions = ['threading.Thread start/join, threading.Semaphore(1) and queue.Queue (unbounded FIFO) semantics are modelled (harness/sched.py doubles), not verified',
                    'only operations on the shared queue / semaphore / caller\'s result and thread start/join are scheduling points; a new thread runs up to its first such operation when it is started',
                    'a KeyboardInterrupt delivered to the thread calling run() is modelled as an exception at a queue.get()',
-                   'sub-suites are hashable, distinct TestCase-like objects; a run() that raises raises an Exception subclass (a BaseException is deliberately not turned into broken-runner by the code)',
+                   'a run() that raises raises an Exception subclass (both _run_test methods say `except Exception`: a KeyboardInterrupt / SystemExit / GeneratorExit out of a sub-suite\'s run() '
+                   'ends the worker thread without a broken-runner report - audit/C13 violation 3 - which is the documented Exception-only domain of C13)',
+                   'a worker\'s identity is its position in what make_tests yields (the model never looks at the sub-suite object); what kind of object it is - unhashable, equal to another, '
+                   'the very same object again - is varied by the harness only, and the theorems hold for every such choice because the repaired run() keys its table by the Thread',
+                   'a stock unittest.TestSuite (`polls`) reads result.shouldStop before each element; the VALUE read is not modelled - the caller\'s result double always answers False, so the worker goes on '
+                   '(a worker that reads True leaves its loop early and performs a prefix of its program; "told to stop" is what C13 claims, not that the worker obeys); the stream flavour\'s '
+                   'per-worker result answers shouldStop locally (no shared object), so `polls` is a suite-flavour notion; a stock TestSuite is yielded once (unittest empties a suite while running it)',
                    'the number of chunks of a broken-runner traceback is measured on the implementation and given to the model (stream flavour)',
                    'per-worker results are the default ones or (hint wrap) a pass-through TestResultDecorator; the caller\'s result raises Exception subclasses only '
-                   '(a BaseException from status()/stop() is outside the documented fault domain of C13; C12 mixes both kinds); sub-suites are distinct objects and API test ids '
-                   'are positional (repeated ids are covered by native emitters only) - yielding the same sub-suite object twice is outside the domain (see report: ConcurrentTestSuite '
-                   'then returns while a worker still runs)',
+                   '(a BaseException from status()/stop() is outside the documented fault domain of C13; C12 mixes both kinds); API test ids '
+                   'are positional (repeated ids are covered by native emitters only); two workers of the stream flavour never share a route code',
                    'translator ties (harness/suiteskel.py + harness/tfrskel.py): the try / except Exception / finally structure of both _run_test methods and the '
                    'skeletons of ThreadsafeForwardingResult are re-read from the source on every run (theorems C13_src_run_test_suite / _stream, C12_src_*); trusted: '
                    'the interpreters\' reading of sequencing / try-except / try-finally and that each recognised statement is what its name says; run() itself (the '
@@ -165,7 +246,8 @@ class C13(Prop):
     manifest = {
         'text': 'Theorems for every number of workers, worker programs (0.. tests of any outcome, run() raising), fault plans (worker-side faults of the caller\'s '
                 'TestResult, make_tests failing after k sub-suites, an interrupt at any queue.get(), the caller\'s result raising at any call of run()\'s thread) and every '
-                'schedule (arbitrary list of thread ids, unbounded), for both ConcurrentTestSuite and ConcurrentStreamTestSuite: no reachable state is stuck and every run ends '
+                'schedule (arbitrary list of thread ids, unbounded), for both ConcurrentTestSuite and ConcurrentStreamTestSuite - a worker being its position in what make_tests yields, whatever '
+                'object the sub-suite is (unhashable unittest.TestSuite, equal TestCases, the same object twice; stock TestSuite partitions with their shouldStop reads): no reachable state is stuck and every run ends '
                 '(run() returns or raises, every started thread ends); on normal return every sub-suite was started, ran once, has terminated and every event it emitted reached '
                 'the caller\'s result exactly once in that worker\'s order (stream: with its route code and a time stamp - the emitter\'s own instant if it gave one, '
                 'for TestResult-API tests and for tests that call result.status() themselves; suite: one whole well-shaped block at a time - C12\'s invariant incl. '
@@ -209,7 +291,18 @@ class C13(Prop):
         sch = S.Scheduler(schedule)
         log = []
         sem = S.SchedSemaphore(sch, log)
-        workers = [Worker(n, w[0], w[1], flavour == 'stream', 'emptyId' in hints) for n, w in enumerate(wspecs)]
+        cls = SuiteWorker if 'testSuites' in hints else CaseWorker if 'equalCases' in hints else Worker
+        rec, workers, seen = {}, [], {}
+        for n, w in enumerate(wspecs):
+            key = repr(w[:2])
+            polls = len(w) > 3 and w[3]
+            if polls:                           # a stock unittest.TestSuite (one run per object: unittest empties a suite as it runs it)
+                workers.append(StockSuite(n, w[0], w[1], False, 'emptyId' in hints, rec))
+            elif 'sameObject' in hints and key in seen:
+                workers.append(seen[key])       # the very same sub-suite object, yielded once more
+            else:
+                workers.append(cls(n, w[0], w[1], flavour == 'stream', 'emptyId' in hints, rec))
+                seen[key] = workers[-1]
         faults = {0: set(mfaults)}
         for n, w in enumerate(wspecs):
             faults[n + 1] = set(w[2])
@@ -226,9 +319,12 @@ class C13(Prop):
                     sch.yield_point()
                     raise Interrupt()
 
+        made = {}
+
         class Thread(S.SchedThread):
             def __init__(self, target=None, args=()):
-                S.SchedThread.__init__(self, sch, target, args, args[0].n + 1)
+                S.SchedThread.__init__(self, sch, target, args, len(made) + 1)      # the k-th thread run() creates is worker k
+                made[self.tid] = self
 
             def start(self):
                 self.s.yield_point()
@@ -267,22 +363,23 @@ class C13(Prop):
             st['live'] = [w for w in st['spawned'] if (w + 1) not in sch.done]
 
         saved = ts.threading, ts.Queue
-        ts.threading = types.SimpleNamespace(Thread=Thread, Semaphore=lambda n=1: sem)
+        ts.threading = types.SimpleNamespace(Thread=Thread, Semaphore=lambda n=1: sem, current_thread=lambda: made[S.current_tid()])
         ts.Queue = lambda: S.SchedQueue(sch, on_get)
         try:
             sch.spawn(0, main)
             dl = sch.run()
         finally:
             ts.threading, ts.Queue = saved
-        return sch, log, sink, workers, st, dl
+        return sch, log, sink, rec, st, dl
 
     def run_impl(self, inp):
         try:
-            sch, log, sink, workers, st, dl = self.execute(inp)
+            sch, log, sink, rec, st, dl = self.execute(inp)
+            workers = range(len(inp[1]))
         except S.Hang:
             return ['harness-hang', 'scheduler']
         died = []
-        for n in range(len(workers)):
+        for n in workers:
             e = sch.errors.get(n + 1)
             if e is not None and not isinstance(e, S.INJECTED):
                 return ['raised', type(e).__name__]
@@ -291,11 +388,11 @@ class C13(Prop):
             return ['raised', type(sch.errors[0]).__name__]
         flags = []
         for w in workers:
-            r = w.result
+            r = rec.get(w, {}).get('result')
             flags.append(bool(r.shouldStop) if (r is not None and inp[0] == 'stream') else False)
         self.stats[id(inp)] = (sch.skipped, len(sch.picks))
         finished = dl is None and len(sch.done) == len(sch.order)
-        return [log, sink.events, st['result'], st['spawned'], st['joined'], st['live'], [w.runs for w in workers], flags, died, finished]
+        return [log, sink.events, st['result'], st['spawned'], st['joined'], st['live'], [rec.get(w, {}).get('runs', 0) for w in workers], flags, died, finished]
 
     def step_counts(self, inp):
         sch, *_ = self.execute(inp[:6] + [[]])
@@ -308,7 +405,7 @@ class C13(Prop):
         ts = rng.choice(['omitted', 'explicitNone', 'explicitNone', ['given', rng.randrange(50)], ['given', rng.randrange(50)]])
         return [rng.randrange(3), kind, tags, ts]
 
-    def gen_worker(self, rng, flavour, fault_p):
+    def gen_worker(self, rng, flavour, fault_p, stock_p=0):
         tests = [[rng.choice(KINDS), sorted(rng.sample(range(4), rng.choice([0, 0, 0, 1, 2])))] for _ in range(rng.choice([0, 1, 1, 2, 2, 3]))]
         if flavour == 'stream':
             for t in tests:
@@ -317,15 +414,18 @@ class C13(Prop):
         boom = rng.random() < 0.25
         faults = []
         if flavour == 'suite' and rng.random() < fault_p:
-            up = 7 * (len(tests) + 1)
+            up = 8 * (len(tests) + 1)
             faults = sorted(set(rng.randrange(up) for _ in range(rng.choice([1, 1, 2]))))
+        if flavour == 'suite' and rng.random() < stock_p:
+            return [tests, boom, faults, True]
         return [tests, boom, faults]
 
     def gen_config(self, rng):
         flavour = rng.choice(['suite', 'stream'])
         n = rng.choice([0, 1, 2, 2, 2, 3, 3, 4])
         fault_p = rng.choice([0, 0, 0.3, 0.6])
-        workers = [self.gen_worker(rng, flavour, fault_p) for _ in range(n)]
+        stock_p = rng.choice([0, 0, 0, 0.5, 1])
+        workers = [self.gen_worker(rng, flavour, fault_p, stock_p) for _ in range(n)]
         mode = rng.random()
         mk = intr = None
         mfaults = []
@@ -376,13 +476,20 @@ class C13(Prop):
             ['stream', [[[t('success', [2])], False, []],
                         [[['success', [], [[0, ['st', 'inprogress'], None, 'explicitNone'], [0, ['file', True], some([1]), ['given', 7]],
                                            [0, ['st', 'success'], some([]), 'omitted']]]], True, []]], None, None, [], tb],
+            # stock unittest.TestSuite partitions (they poll shouldStop): one breaks, the other's first poll raises
+            ['suite', [[[t('failure', [1])], True, [], True], [[t()], False, [0], True]], None, None, [], tb],
+            # (a 7th component = realisation hints)  one object yielded twice / unhashable, equal suites / equal cases with an abort
+            ['suite', [[[t()], False, []], [[t()], False, []]], None, None, [], tb, ['sameObject']],
+            ['suite', [[[], False, []], [[], False, []]], None, None, [], tb, ['testSuites']],
+            ['suite', [[[t()], False, []], [[t('error')], False, []]], None, some(1), [0], tb, ['equalCases']],
         ]
 
     def systematic(self, configs, k):
         for cfg in configs:
+            cfg, hints = cfg[:6], cfg[6:]
             counts = self.step_counts(cfg + [[]])
             for s in schedules(counts, None, k):
-                yield cfg + [s]
+                yield cfg + [s] + hints
 
     def gen(self, rng, tier):
         if self._sys is None:
@@ -407,6 +514,16 @@ class C13(Prop):
             self._sys_left = 0
         cfg = self.gen_config(rng)
         hints = [h for h in (['routes', 'emptyId'] if cfg[0] == 'stream' else ['wrap', 'emptyId']) if rng.random() < 0.25]
+        kind = rng.random()         # what kind of object a sub-suite is (both flavours; the suite flavour used to key a dict by it)
+        if kind < 0.25:
+            hints.append('testSuites')
+        elif kind < 0.5:
+            hints.append('equalCases')
+        if rng.random() < 0.3 and len(cfg[1]) >= 2:
+            hints.append('sameObject')      # some workers share one script, hence - under this hint - one object
+            for w in cfg[1][1:]:
+                if rng.random() < 0.7:
+                    w[0], w[1] = [list(t) for t in cfg[1][0][0]], cfg[1][0][1]
         return cfg + [self.gen_schedule(rng, cfg)] + ([hints] if hints else [])
 
     def enumerate(self, tier):
@@ -437,6 +554,22 @@ class C13(Prop):
                 if m <= 3:
                     yield from self.systematic([base[:2] + [some(m), None, [], tb]], 1)
             yield from self.systematic([small_suite[:2] + [some(2), None, [m % 2], tb]], 1)
+        # stock unittest.TestSuite partitions (shouldStop read before every element): <= 2 pre-emptions; every single fault position
+        # (incl. each read), interrupts and make_tests failures with <= 1
+        stock = ['suite', [[[t()], False, [], True], [[t('error', [1])], True, [], True]], None, None, [], tb]
+        yield from self.systematic([stock], 2)
+        for w in range(2):
+            for f in range(16):
+                ws = [[x[0], x[1], [f] if j == w else [], True] for j, x in enumerate(stock[1])]
+                yield from self.systematic([['suite', ws, None, None, [], tb]], 1)
+        for m in range(4):
+            yield from self.systematic([stock[:3] + [some(m), [m % 2], tb]], 1)
+        # what kind of object the sub-suites are: equal cases, one object twice, unhashable suites - with and without an abort
+        for hint in ('equalCases', 'sameObject', 'testSuites'):
+            same = ['suite', [[[t('failure')], False, []], [[t('failure')], False, []]], None, None, [], tb, [hint]]
+            yield from self.systematic([same], 2)
+            for m in range(4):
+                yield from self.systematic([same[:3] + [some(m), [1], tb, [hint]]], 1)
 
     # ----- evidence
     def nontrivial(self, inp, trace):
@@ -452,6 +585,13 @@ class C13(Prop):
             for ev in nat:
                 f.append('native-ts:' + (ev[3] if isinstance(ev[3], str) else 'given'))
                 f.append('native-kind:' + (ev[1][1] if ev[1][0] == 'st' else 'file'))
+        hs = inp[7] if len(inp) > 7 else []
+        if 'sameObject' in hs and len(set(repr(w[:2]) for w in workers)) < len(workers):
+            f.append('one-object-yielded-twice')
+        if 'testSuites' in hs and sum(1 for w in workers if not w[0]) >= 2:
+            f.append('equal-empty-TestSuites')
+        if any(len(w) > 3 and w[3] for w in workers):
+            f.append('stock-TestSuite(polls shouldStop)')
         if any(w[1] for w in workers):
             f.append('boom-worker')
         if any(w[2] for w in workers):
@@ -519,10 +659,10 @@ class C13(Prop):
         for i, w in enumerate(workers):
             rest = lambda nw: [flavour, workers[:i] + [nw] + workers[i + 1:], mk, intr, mfaults, tb, schedule]
             for j in range(len(w[0])):
-                yield rest([w[0][:j] + w[0][j + 1:], w[1], w[2]])
+                yield rest([w[0][:j] + w[0][j + 1:], w[1], w[2]] + w[3:])
                 if len(w[0][j]) == 3:             # native emitter: fewer / plainer events, or an API test instead
                     t = w[0][j]
-                    repl = lambda nt: rest([w[0][:j] + [nt] + w[0][j + 1:], w[1], w[2]])
+                    repl = lambda nt: rest([w[0][:j] + [nt] + w[0][j + 1:], w[1], w[2]] + w[3:])
                     yield repl(t[:2])
                     for k in range(len(t[2])):
                         yield repl([t[0], t[1], t[2][:k] + t[2][k + 1:]])
@@ -532,11 +672,13 @@ class C13(Prop):
                         if ev[3] != 'omitted' and ev[3] != 'explicitNone':
                             yield repl([t[0], t[1], t[2][:k] + [[ev[0], ev[1], ev[2], 'omitted']] + t[2][k + 1:]])
                 if w[0][j][1]:
-                    yield rest([w[0][:j] + [[w[0][j][0], []] + w[0][j][2:]] + w[0][j + 1:], w[1], w[2]])
+                    yield rest([w[0][:j] + [[w[0][j][0], []] + w[0][j][2:]] + w[0][j + 1:], w[1], w[2]] + w[3:])
             if w[1]:
-                yield rest([w[0], False, w[2]])
+                yield rest([w[0], False, w[2]] + w[3:])
             for j in range(len(w[2])):
-                yield rest([w[0], w[1], w[2][:j] + w[2][j + 1:]])
+                yield rest([w[0], w[1], w[2][:j] + w[2][j + 1:]] + w[3:])
+            if len(w) > 3:                       # an ordinary sub-suite instead of a stock TestSuite
+                yield rest(w[:3])
         if mk is not None:
             yield [flavour, workers, None, intr, mfaults, tb, schedule]
         if intr is not None:
